@@ -8,7 +8,15 @@ stored and read back through every nesting context (plain column, label,
 FROM-subquery, CTE, UNION, scalar subquery, function, INSERT..RETURNING single
 and executemany, bound literal via type_coerce, type_coerce / cast of the
 column, WHERE comparison, ORM flush + attribute load, ORM column_property) on a
-real SQLite database.  Oracle, per executed statement:
+real SQLite database.  INSERT..RETURNING is additionally explored as a delivery
+matrix of its own: number of parameter sets (1 = plain execute, 2..3 =
+insertmanyvalues) x sort_by_parameter_order x what serves as the sentinel
+(autoincrement key, client-side generated key, explicit insert_sentinel column;
+the latter two add a column to RETURNING that is filtered off the rows again) x
+statement route (Core returning, Core return_defaults(supplemental_cols=), ORM
+bulk insert returning a column, ORM bulk insert returning entities; the last
+three process the fetched rows internally and serve them a second time from a
+"rewound" result).  Oracle, per executed statement:
 
 * the value that comes out equals the value that went in (Float/Numeric:
   within the type's scale);
@@ -33,11 +41,16 @@ Mutations caught: (private copy of lib/, quick tier, each gave VIOLATION lines)
   * to_decimal_processor_factory with scale-1 -> value changed: Numeric(10,2);
   * TypeDecorator.result_processor applying process_result_value *before* the impl processor
     -> error / value changed with the marking decorators on DateTime, Boolean, Enum;
-  * compiler._label_returning_column not populating the result map -> result processing x0 in insert..returning.
+  * compiler._label_returning_column not populating the result map -> result processing x0 in insert..returning;
+  * engine/cursor.py _remove_processors_and_tuple_filter keeping the processors when the metadata has a tuple filter
+    (seeded C09-a: rewound RETURNING rows processed twice) -> result processing x2 / value changed in
+    insert..returning [core return_defaults+supplemental_cols | orm returning column | orm returning entity,
+    client-pk | sentinel-col, sorted, n=2].
 """
 import datetime as dt
 import decimal
 import enum
+import itertools
 import uuid
 import warnings
 
@@ -54,6 +67,7 @@ from sqlalchemy import exc
 from sqlalchemy import Float
 from sqlalchemy import func
 from sqlalchemy import insert
+from sqlalchemy import insert_sentinel
 from sqlalchemy import Integer
 from sqlalchemy import Interval
 from sqlalchemy import JSON
@@ -95,7 +109,10 @@ META = dict(
     "configurations, JSON x2, Uuid x3, PickleType), each wrapped in a counting TypeDecorator (and nine of them also in a "
     "non-idempotent marking one), x every boundary value of the variant's domain (ints +-2^k+-1, scale edges, calendar and "
     "microsecond edges, NUL/empty/unicode strings and bytes, nested JSON with None, all enum members, NULL) x 6 ways of "
-    "writing (insert, insert.values, insert..returning, executemany..returning, update..returning, ORM flush) x ~30 reading "
+    "writing (insert, insert.values, insert..returning, executemany..returning, update..returning, ORM flush) x the "
+    "INSERT..RETURNING delivery matrix (n parameter sets x sort_by_parameter_order x sentinel kind {autoincrement key, "
+    "client-side key, insert_sentinel column} x route {Core returning, Core return_defaults+supplemental_cols, ORM bulk "
+    "returning column, ORM bulk returning entity}; see bounds for the part of it each value gets) x ~30 reading "
     "contexts (plain, label, subquery, subquery of label, CTE, UNION/UNION ALL, union in subquery, scalar subquery, max, "
     "coalesce, repeated column, type_coerce of column / plain column / label, bound literal 3 ways, cast, WHERE =/IN, "
     "mappings, yield_per, ORM entity load with two column_property, ORM attribute select, ORM expire+reload), executed on "
@@ -114,8 +131,11 @@ META = dict(
         "int and float are one family when comparing what SQLite returns for integral REAL values",
     ],
     bounds=dict(
-        quick="33 variants x boundary value sets (ints: 9 bit positions) x all writers x all contexts x 2 drivers; compose x 5 dialects; ARRAY 9 shapes",
-        thorough="as quick with ints +-2^k+-1 for every k < 64 and every 2-decimal value in [-1.20, 1.20]; plus all ordered pairs inside 4 type families in UNION/CASE/COALESCE",
+        quick="33 variants x boundary value sets (ints: 9 bit positions) x all writers x all contexts x 2 drivers; compose x 5 dialects; ARRAY 9 shapes. "
+        "INSERT..RETURNING matrix on pysqlite: first value of every variant (count and mark decorators) x n in {1,2} x sorted/unsorted x 3 sentinel kinds x 4 routes "
+        "(48 statements); every other value (incl. NULL) x the slice n=2, sorted, client-side key x the 3 rewinding routes; aiosqlite: that slice for the first value",
+        thorough="as quick with ints +-2^k+-1 for every k < 64 and every 2-decimal value in [-1.20, 1.20]; plus all ordered pairs inside 4 type families in UNION/CASE/COALESCE; "
+        "INSERT..RETURNING matrix complete (n in {1,2,3} x sorted/unsorted x 3 sentinel kinds x 4 routes = 72 statements) for every value on both drivers",
     ),
 )
 
@@ -306,6 +326,21 @@ class World:
             properties=dict(vprop=column_property(select(t2.c.v).where(t2.c.id == t.c.id).scalar_subquery()), vlabel=column_property(type_coerce(t.c.v, self.typ2).label("vl"))),
         )
         self.Ent = Ent
+        # tables for the INSERT..RETURNING delivery matrix: what serves as the insertmanyvalues "sentinel" differs -
+        # a server-side autoincrement key, a client-side generated key (python default, autoincrement=False) and an
+        # explicit insert_sentinel() column (the latter two ride along in RETURNING and are filtered off the rows)
+        ctr = itertools.count(1)
+        self.rtables = {}
+        self.rstmts = {}
+        for rk, pk_kw, extra in (
+            ("auto-pk", {}, ()),
+            ("client-pk", dict(autoincrement=False, default=lambda: next(ctr)), ()),
+            ("sentinel-col", {}, (insert_sentinel("sn"),)),
+        ):
+            rt = Table("r_" + rk[:4].rstrip("-"), self.md, Column("id", Integer, primary_key=True, **pk_kw), Column("v", self.typ), *extra)
+            rent = type("REnt_" + rk[:4].rstrip("-"), (object,), {})
+            reg.map_imperatively(rent, rt)
+            self.rtables[rk] = (rt, rent)
         self.conn = conn
         self.md.create_all(self.conn)
 
@@ -475,7 +510,69 @@ def writers(w, value):
     return W
 
 
-def run_value(w, flags, value, out):
+RET_TABLES = ("auto-pk", "client-pk", "sentinel-col")
+RET_ROUTES = ("core returning", "core return_defaults+supplemental_cols", "orm returning column", "orm returning entity")
+
+
+def returning_matrix(w, value, mode):
+    """INSERT..RETURNING as a delivery context of its own: n identical parameter sets (n=1: plain execute, n>1:
+    insertmanyvalues) x sort_by_parameter_order x kind of sentinel x statement route.  The ORM routes and
+    return_defaults(supplemental_cols=) fetch and process the rows internally and then serve them again ("rewound"
+    result).  mode 'full2' / 'full3' = whole product with n <= 2 / 3; 'slice' = the deterministic-order executemany
+    (n=2, sorted) on the client-side-key table through the three rewinding routes.  Simplest first.
+    -> (name, thunk, allowed bind counts, result calls, expected values)"""
+    c = w.conn
+    M = []
+    if mode == "slice":
+        combos, tables, routes = [(2, True)], RET_TABLES[1:2], RET_ROUTES[1:]
+    else:
+        combos, tables, routes = [(n, srt) for n in range(1, int(mode[4:]) + 1) for srt in (False, True)], RET_TABLES, RET_ROUTES
+    for n, srt in combos:
+        for rk in tables:
+            rt, rent = w.rtables[rk]
+            for route in routes:
+
+                sk = (rk, route, srt)
+                if sk not in w.rstmts:  # built once per world (the statement does not depend on the value)
+                    if route == "core returning":
+                        w.rstmts[sk] = insert(rt).returning(rt.c.v, sort_by_parameter_order=srt)
+                    elif route == "core return_defaults+supplemental_cols":
+                        w.rstmts[sk] = insert(rt).return_defaults(supplemental_cols=[rt.c.v], sort_by_parameter_order=srt)
+                    elif route == "orm returning column":
+                        w.rstmts[sk] = insert(rent).returning(rent.v, sort_by_parameter_order=srt)
+                    else:
+                        w.rstmts[sk] = insert(rent).returning(rent, sort_by_parameter_order=srt)
+
+                def thunk(n=n, rt=rt, route=route, stmt=w.rstmts[sk]):
+                    c.execute(rt.delete())
+                    del LOG[:]
+                    ps = [dict(v=value) for _ in range(n)]
+                    if route == "core returning":
+                        return [r[0] for r in c.execute(stmt, ps)]
+                    if route == "core return_defaults+supplemental_cols":
+                        return [r._mapping[rt.c.v] for r in c.execute(stmt, ps)]
+                    with Session(c) as s:
+                        if route == "orm returning column":
+                            return list(s.execute(stmt, ps).scalars())
+                        return [e.v for e in s.execute(stmt, ps).scalars()]
+
+                # the ORM bulk INSERT leaves a None-valued column out of the statement (documented: None = "omitted"),
+                # unless the type evaluates None (JSON): both are accepted, there is then nothing / one value to bind
+                nb = (0, n) if value is None and route.startswith("orm") else (n,)
+                M.append(("insert..returning [%s, %s, %s, n=%d]" % (route, rk, "sorted" if srt else "unsorted", n), thunk, nb, n, [value] * n))
+    return M
+
+
+def matrix_mode(tier, route, i, nvalues):
+    """which part of the INSERT..RETURNING matrix value #i gets (a pure function of the case, so replay agrees)"""
+    if tier == "thorough":
+        return "full3"
+    if route != "sqlite":
+        return "slice" if i == 0 else None
+    return "full2" if i == 0 else "slice"
+
+
+def run_value(w, flags, value, out, mode=None):
     """store ``value`` each way; after the last way read it back through every context"""
     stats = []
 
@@ -490,14 +587,20 @@ def run_value(w, flags, value, out):
             out.append(("error in %s" % ctx, "%s: %s" % (type(e).__name__, str(e)[:200])))
             return
         b, r = sum(1 for x in LOG if x[0] == "b"), sum(1 for x in LOG if x[0] == "r")
-        if b != nb:
-            out.append(("bind processing x%d in %s" % (b, ctx), "process_bind_param ran %d time(s) for %d bound value(s)" % (b, nb)))
+        if b not in (nb if isinstance(nb, tuple) else (nb,)):
+            out.append(("bind processing x%d in %s" % (b, ctx), "process_bind_param ran %d time(s) for %r bound value(s)" % (b, nb)))
         if r != nr:
             out.append(("result processing x%d in %s" % (min(r, 2) if nr == 1 else (0 if r == 0 else (1 if r < nr else 2)), ctx), "process_result_value ran %d time(s) for %d fetched value(s)" % (r, nr)))
         if len(got) != len(expect) or not all(same(g, x) for g, x in zip(got, expect)):
             out.append(("value changed in %s" % ctx, "stored %r, got back %r (expected %r)" % (value, got, expect)))
         stats.append((ctx, b, r))
 
+    if mode:
+        for name, thunk, nb, nr, expect in returning_matrix(w, value, mode):
+            one(name, thunk, nb, nr, expect)
+        for rt, _ in w.rtables.values():
+            w.conn.execute(rt.delete())
+        w.conn.commit()
     for name, thunk, nb, nr, expect in writers(w, value):
         one(name, thunk, nb, nr, expect)
         # whichever way it was written, the plain read must give it back
@@ -709,7 +812,7 @@ def run_shard(shard, tier, rec):
     def body(w):
         for i, value in enumerate(values):
             out = []
-            stats = run_value(w, flags, value, out)
+            stats = run_value(w, flags, value, out, matrix_mode(tier, route, i, len(values)))
             for ctx, b, r in stats:
                 rec.case((route, vname, kind, i, ctx), nontrivial=True)
             rec.outcome((vname, kind, repr(value)))
@@ -742,5 +845,6 @@ def replay(case):
     if case["route"] == "compose":
         composition_case(case["dialect"], vname, make, value, out)
     else:
-        with_world(case["route"], vname, make, case["kind"], lambda w: run_value(w, flags, value, out))
+        mode = matrix_mode(case["tier"], case["route"], case["value_index"], len(values))
+        with_world(case["route"], vname, make, case["kind"], lambda w: run_value(w, flags, value, out, mode))
     return [("%s: %s" % (k, vname), d) for k, d in out]
